@@ -1,5 +1,5 @@
 """C37 — prange gives sequential results and a safe exit on every schedule (structural clauses of the exit protocol)."""
-from ..rules import pC37
+from ..rules import pC37, sC37
 
 ID = 'C37'
 TECHNIQUE = ('table agreement between the writer and the readers of the shared exit code (extracted from get_all_labels(), the emitted C templates and the '
@@ -72,4 +72,5 @@ SILENT_EDITS = [   # behaviour-preserving, all stayed silent (exit 0)
 
 
 def run(ctx):
-    return [pC37.rule_why(ctx), pC37.rule_labels(ctx), pC37.rule_handoff(ctx), pC37.rule_stack(ctx), pC37.rule_reductions(ctx)]
+    return [pC37.rule_why(ctx), pC37.rule_labels(ctx), pC37.rule_handoff(ctx), pC37.rule_stack(ctx), pC37.rule_reductions(ctx),
+            sC37.rule_emit(ctx), sC37.rule_trip(ctx)]
